@@ -774,6 +774,7 @@ pub fn generate(seed: u64, opts: &GenOptions) -> Scenario {
         precompiles,
         callers: vec![vec![Entry::Execute]],
         second: None,
+        later: vec![],
         profile: profile.name().into(),
     };
     scenario
@@ -783,6 +784,19 @@ pub fn generate(seed: u64, opts: &GenOptions) -> Scenario {
 /// the first block assuming every first-block transaction of a sender that can be valid is executed;
 /// the reference decides what is actually valid.
 pub fn add_second_block(s: &mut Scenario, seed: u64) {
+    let (block2, txs) = sibling_block(s, seed, 0);
+    s.second = Some((block2, txs));
+}
+
+/// One more consecutive block after `second` and the `later` blocks already there (C10 history
+/// differential: account statuses and reverts across three and four merges on one state).
+pub fn add_later_block(s: &mut Scenario, seed: u64) {
+    let k = s.later.len() as u64 + 1;
+    let b = sibling_block(s, seed, k);
+    s.later.push(b);
+}
+
+fn sibling_block(s: &Scenario, seed: u64, k: u64) -> (crate::scenario::BlockSpec, Vec<TxSpec>) {
     let opts = GenOptions {
         profile: match s.profile.as_str() {
             "lifecycle" => Profile::Lifecycle,
@@ -797,11 +811,12 @@ pub fn add_second_block(s: &mut Scenario, seed: u64) {
     };
     // Generate a sibling scenario over the same universe and borrow its transactions: contracts and
     // EOAs share addresses, so the second block hits the accounts and slots the first one touched.
-    let sibling = generate(crate::prng::derive(seed, 0x2b10c), &opts);
+    let sibling = generate(crate::prng::derive(seed, 0x2b10c + k), &opts);
     let mut txs = sibling.txs;
     // continue nonces per sender from the first block's expectation
     for tx in txs.iter_mut() {
-        let used = s.txs.iter().filter(|t| t.caller == tx.caller && !t.label.contains('+')).count() as u64;
+        let earlier = s.txs.iter().chain(s.second.iter().flat_map(|(_, t)| t.iter())).chain(s.later.iter().flat_map(|(_, t)| t.iter()));
+        let used = earlier.filter(|t| t.caller == tx.caller && !t.label.contains('+')).count() as u64;
         let base = s.pre_state.iter().find(|a| a.address == tx.caller).map_or(0, |a| a.nonce);
         let sib_base = sibling.pre_state.iter().find(|a| a.address == tx.caller).map_or(0, |a| a.nonce);
         tx.nonce = tx.nonce.saturating_sub(sib_base) + base + used;
@@ -811,7 +826,7 @@ pub fn add_second_block(s: &mut Scenario, seed: u64) {
         }
     }
     let mut block2 = s.block.clone();
-    block2.number += 1;
-    block2.timestamp += 12;
-    s.second = Some((block2, txs));
+    block2.number += 1 + k;
+    block2.timestamp += 12 * (1 + k);
+    (block2, txs)
 }
